@@ -9,7 +9,7 @@ from harness import common
 from harness.translate import gen as G
 
 PROPERTY = "C16"
-LEAN_MODULES = ["SigpyVerif.Props.C16"]
+LEAN_MODULES = ["SigpyVerif.Props.C16", "SigpyVerif.Props.C16Recon"]
 THEOREMS = ["SigpyVerif.C16." + t for t in [
     "sense_denote", "sense_batch_invariant", "sense_batch_partition", "sense_batches_nonempty",
     "weights_exponent_is_half", "weights_sliced_with_coils", "batch_forwards_all", "batched_apply",
@@ -19,6 +19,12 @@ THEOREMS = ["SigpyVerif.C16." + t for t in [
     "matrix_adjoint_identity", "sense_dot_test", "sense_dot_test_complex",
     "recon_setup_sense", "recon_setup_l1wavelet", "recon_setup_tv", "recon_objective",
     "estimated_weights_sqrt", "consistent_data_recovers",
+    # the GENERATED factory tree (Gen/SenseTree.lean) and its normal form
+    "fft_axes_per_coil", "fkindOf_perCoil", "not_batched_default", "senseBody_unbatched", "batchWeights_gen", "kspNdim_gen",
+    "sense_gen_eq",
+    # the GENERATED recon set-ups (Gen/ReconSetup.lean), Props/C16Recon.lean
+    "lls_lamda_default", "estimate_weights_doc", "recon_y_weighted", "senserecon_setup", "l1waveletrecon_setup", "tvrecon_setup",
+    "senseLin_isAdj", "senserecon_cg_minimises", "tvrecon_kkt_minimises", "unitary_transform_prox",
 ]]
 
 TOL_MODEL = 1e-9     # real (double) pipeline vs the exact model on the same F: observed <= 1e-14 relative
@@ -27,7 +33,10 @@ KEY_BW = "C16:Sense:batch-weights"
 
 
 def translate(ctx):
-    G.regenerate(ctx, ["SenseFormulas"])
+    # SenseFormulas: the integer formulas; SenseTree: the factory body as an operator-expression tree (refers to them);
+    # ReconSetup: the LinearLeastSquares problem each recon class sets up; C14*: the routing definitions whose
+    # theorems Props/C16Recon.lean instantiates (sigpy/app.py is an anchor of C16 too)
+    G.regenerate(ctx, ["SenseFormulas", "SenseTree", "ReconSetup", "C14Select", "C14Setup"])
 
 
 # ---- exact formatting -------------------------------------------------------------------------
@@ -84,6 +93,9 @@ def gen_case(rng, n=None, ish=None):
     c = dict(ish=list(ish), n=n, cart=cart, wkind=rng.choice(["none", "img", "coil", "coil"]), seed=rng.randrange(1 << 30))
     if not cart:
         c["cshape"] = [rng.randint(3, 9)] if rng.random() < 0.7 else [rng.randint(2, 3), rng.randint(2, 3)]
+    # ishape passed explicitly (= mps.shape[1:]) or left None — derived from the case seed, NOT drawn from `rng`, so that
+    # the random stream of the correspondence and of the search is the one the check had before this field existed
+    c["ishg"] = (c["seed"] % 5) < 2
     return c
 
 
@@ -113,9 +125,18 @@ def data_for(c):
 
 def fourier_matrix(c, d):
     """the single-coil Fourier stage as a K x R matrix: numpy's own centred orthonormal FFT of the basis
-    images (Cartesian) / sigpy.nufft of the basis images (non-Cartesian)"""
+    images (Cartesian) / sigpy.nufft of the basis images (non-Cartesian; with transp_nufft the adjoint NUFFT at
+    the negated coordinates, which needs a coordinate grid of the image's shape)"""
     import sigpy as sp
     ish = c["ish"]
+    if c.get("transp"):
+        R = int(np.prod(ish))
+        cols = []
+        for r in range(R):
+            e = np.zeros(R, dtype=np.complex128)
+            e[r] = 1
+            cols.append(sp.nufft_adjoint(e.reshape(ish), -d["coord"], oshape=ish).ravel())
+        return np.stack(cols, axis=1)
     R = int(np.prod(ish))
     cols = []
     for r in range(R):
@@ -132,6 +153,10 @@ def fourier_matrix(c, d):
 
 def build(c, d, b, **kw):
     import sigpy.mri as mr
+    if c.get("ishg"):
+        kw.setdefault("ishape", tuple(c["ish"]))
+    if c.get("transp"):
+        kw.setdefault("transp_nufft", True)
     return mr.linop.Sense(d["mps"], coord=d["coord"], weights=d["w"], coil_batch_size=b, **kw)
 
 
@@ -171,10 +196,12 @@ def model_line(op, c, d, b, Fm, vec):
     if d["w"] is None:
         ws = "wsh=none"
     else:
-        kspnd = len(d["ksh"])
-        ws = "wsh=%s kspnd=%d w=%s" % (L(d["w"].shape), kspnd, rlist(d["w"]))
-    return "C16 %s n=%d R=%d K=%d b=%s %s mps=%s F=%s %s=%s" % (
-        op, n, R, K, "none" if b is None else str(b), ws, clist(d["mps"]), clist(Fm), "x" if op == "fwd" else "y", clist(vec))
+        ws = "wsh=%s w=%s" % (L(d["w"].shape), rlist(d["w"]))
+    # what the factory inspects besides the data: the image shape, whether `ishape` is passed, coord.ndim, transp_nufft
+    args = "ish=%s ishape=%s cnd=%s transp=%d" % (L(c["ish"]), "given" if c.get("ishg") else "none",
+                                                   "none" if d["coord"] is None else str(d["coord"].ndim), 1 if c.get("transp") else 0)
+    return "C16 %s n=%d R=%d K=%d b=%s %s %s mps=%s F=%s %s=%s" % (
+        op, n, R, K, "none" if b is None else str(b), args, ws, clist(d["mps"]), clist(Fm), "x" if op == "fwd" else "y", clist(vec))
 
 
 def reify(A, d):
@@ -193,8 +220,13 @@ def reify(A, d):
         lvs = leaves(op)
         for li, lf in enumerate(lvs):
             nm = type(lf).__name__
-            if nm in ("FFT", "NUFFT"):
-                names += "F"
+            if nm == "FFT":
+                # which axes are transformed (normalised to 0 … ndim-1): the model prints the generated axes the same way
+                names += "F" + ".".join(str(int(a) % len(lf.ishape)) for a in lf.axes)
+            elif nm == "NUFFT":
+                names += "N" if np.array_equal(lf.coord, d["coord"]) else "N?"
+            elif nm == "NUFFTAdjoint":
+                names += "Nt" if np.array_equal(lf.coord, -d["coord"]) else "N?"
             elif nm == "Multiply":
                 m = np.asarray(lf.mult)
                 if li == len(lvs) - 1:   # the rightmost factor acts on the image: S = Multiply(ishape, mps)
@@ -239,6 +271,13 @@ def correspond(ctx):
     # make sure every coil count and every weights kind occurs
     for n in range(1, 7):
         cases.append(gen_case(rng, n=n))
+    # transp_nufft (F = NUFFT(-coord).H) needs a coordinate grid of the image's shape: two such cases per run
+    import random
+    rng_t = random.Random("C16-transp-%d" % ctx.seed)    # its own stream (see gen_case)
+    for _ in range(2 if ctx.tier == "quick" else 8):
+        c = gen_case(rng_t, ish=rng_t.choice([[2, 3], [3, 3], [2, 2], [2, 2, 2]]))
+        c["cart"], c["cshape"], c["transp"] = False, list(c["ish"]), True
+        cases.append(c)
     lines, meta = [], []
     for c in cases:
         d = data_for(c)
